@@ -72,6 +72,19 @@ Example C03_nonvacuous :
   f_out (signal 1 5 false w 1) = [FSched 5 P_PASS_PART 1 (APassPart 1)] /\ d_waiting_ds (getd (signal 1 5 false w 1) 1) = false.
 Proof. split; reflexivity. Qed.
 
+(** a connection added while the simulation is in progress: the new upstream is told at that same instant that space may be
+    available (a waiting operational device then schedules its attempt now, [C03_wakeup_schedules_attempt_now]) *)
+Theorem C03_connection_added_wakes : forall fuel nw w d u,
+  existsb (bad_up d w) [u] = false ->
+  let w0 := if is_holder (d_kind (getd w d)) then
+              match d_wait_since (getd w d) with Some _ => updd w d (dev_set_wait nw true true) | None => w end
+            else w in
+  let w2 := updd (fold_left (fun w' v => updd w' v (t_down_del d)) (d_up (getd w d)) w0) d (t_up [u]) in
+  existsb (Z.eqb d) (d_down (getd w2 u)) = false ->
+  rewire fuel nw w d [u] = signal fuel nw false (updd w2 u (t_down_add d)) u.
+Proof. intros fuel nw w d u V w0 w2 NEW. unfold rewire. rewrite V. cbn [fold_left]. fold w0. fold w2. rewrite NEW. reflexivity. Qed.
+Print Assumptions C03_connection_added_wakes.
+
 (** * queue level: no ready part is forgotten *)
 Theorem C03_ready_part_flagged_or_pending : forall sc s d,
   reach_in sc s -> ready (getd (fst s) d) ->
